@@ -57,7 +57,7 @@ fn parts_for(id: &str) -> Option<(&'static str, Vec<Box<dyn DynPart>>, Vec<Strin
         "C15" => ("C15", c15::parts_all(), none),
         "C16" => ("C16", c16::parts(), none),
         "C17" => ("C17", c17::parts(), none),
-        "C18" => ("C18", c18::parts(), none),
+        "C18" => ("C18", c18::parts_all(), none),
         "C19" => ("C19", c19::parts(), none),
         _ => return None,
     })
